@@ -159,6 +159,21 @@ chk("C11", "proof",
     "Coq proof over hand model (tables + suppression); text-layer correspondence; enumeration for parser invisibility",
     "DESIGN.md section 4 C11")
 
+chk("C09", "proof",
+    "Proved (Coq, closed under the global context) over Model/FixSched.v with documents, passes and collectors abstract: whatever the rules do, "
+    "the levels that are run strictly increase (no level twice), there are at most as many passes as levels, and the loop always ends; under "
+    "four explicit hypotheses about the rules (a pass resolves its own level; nothing to fix means untouched; a pass creates no work for lower "
+    "levels; collectors see the document the pass leaves) one run from the lowest level leaves nothing fixable and a second run changes nothing; "
+    "without the first hypothesis the claim is refuted (witness) - the abstract shape of '10. x'. The levels come from the translated rule table. "
+    "The scheduler model is tied to the code by generated trigger plug-ins at levels 0,1,2,3,4,5,9 whose triggers are driven by the document: "
+    "the sequence of levels handed a fixing context must be the model's. The hypotheses are NOT proved for the 21 fix-capable rules: the "
+    "conclusion itself (fix twice, scan in between) is evaluated on the implementation for the default set, every rule alone and all 210 pairs "
+    "over 158 documents, and for a file processed after a file that failed in a lower or later pass.",
+    "Trusted: Coq kernel + vm_compute, translator rule_table.py, trigger/fault plug-ins, in-process CLI driver. The property as stated (for all "
+    "documents) is not established: five groups of known findings show it fails on the pinned tree.",
+    "Coq proof of the scheduler (unconditional bounds; conditional fixed point); plug-in driven correspondence; pairwise enumeration",
+    "DESIGN.md section 4 C09")
+
 NOT_YET = {}
 
 
